@@ -86,6 +86,14 @@ def serial(na: int, nb: int, reps: int, mx: int, stop: int) -> bool:
         variant.add_parameter("junk", [1, 2, 3])
         variant.remove_parameter("b")
         params = handed
+    if hx.P.get('edited_list'):
+        # a parameter list that was built, then edited (a parameter dropped again), then run: the grid run is the list's
+        # CURRENT declaration
+        pl = B.ParameterList(params)
+        pl.add_parameter("junk", [1, 2])
+        pl.build()
+        pl.remove_parameter("junk")
+        params = pl
     res = B.batch_run(BM, params, collectors=sel, processes=1, max_timesteps=mx, repetitions=reps)
     runs = [(a, b) for _ in range(reps) for a in avals for b in range(nb)]
     steps = stop if stop < mx else mx        # at timestep `stop` the stopper (priority 5) completes before collectors run
@@ -238,7 +246,8 @@ def obligations(tier):
         X("serial", serial, parts=[{"collectors": c, "R": R, "T": T} for c in ("c", ["c", "d"], None)] +
           [{"collectors": "c", "R": 1, "T": 2, "repeated": True}, {"collectors": "c", "R": 2, "T": 1, "oneshot": True},
            {"collectors": "c", "R": 1, "T": 2, "own_timestep": True},
-           {"collectors": "c", "R": 1, "T": 1, "sibling": "dict"}, {"collectors": "c", "R": 1, "T": 1, "sibling": "plist"}],
+           {"collectors": "c", "R": 1, "T": 1, "sibling": "dict"}, {"collectors": "c", "R": 1, "T": 1, "sibling": "plist"},
+           {"collectors": "c", "R": 1, "T": 1, "edited_list": True}],
           labels=("three_runs", "completes_before_limit", "limit_before_completion"), timeout=1200, encoded=enc),
         X("parallel_any_order", parallel_any_order,
           parts=[{"na": a, "nb": b, "reps": r, "procs": p} for (a, b, r) in shapes for p in (2,)] + [{"na": 2, "nb": 1, "reps": 1, "procs": 16}],
